@@ -106,18 +106,21 @@ int main(int argc, char **argv) {
                 size_t n = 12345; errno = 0; in_call = 1; void *r = v->toarray(v, &n); in_call = 0; int e = errno;
                 if (r) { printf("array %zu ", n); puthex(stdout, r, v->num * os); scribble_free(r, v->num * os); }   /* the block has num elements whatever *size says */
                 else { printf("refused %s", ename(e)); if (n != 0) printf(" size=%zu", n); }
-            } else if (!strcmp(op, "walk")) {
+            } else if (!strcmp(op, "walk") || !strcmp(op, "walkip") || !strcmp(op, "walkmix")) {
+                /* walk: every step asks for a copy; walkip: every step in place (newmem=false); walkmix: alternating */
+                int mode = !strcmp(op, "walk") ? 0 : !strcmp(op, "walkip") ? 1 : 2;
                 qvector_obj_t o; memset(&o, 0, sizeof o); o.index = atoi(a1); int n = atoi(a2), ended = 0, first = 1;
                 static char buf[1 << 20]; size_t bl = 0; buf[0] = 0;
                 for (int i = 0; i < n; i++) {
-                    errno = 0; in_call = 1; bool r = v->getnext(v, &o, true); in_call = 0;
+                    bool copy = mode == 0 || (mode == 2 && (i & 1) == 0);
+                    errno = 0; in_call = 1; bool r = v->getnext(v, &o, copy); in_call = 0;
                     if (!r) { ended = 1; if (errno != ENOENT) bl += sprintf(buf + bl, "!%s", ename(errno)); if (o.data != NULL) bl += sprintf(buf + bl, "!data"); break; }
                     if (bl + 2 * os + 2 >= sizeof buf) break;
                     if (!first) buf[bl++] = ','; first = 0;
                     if (os == 0) buf[bl++] = '-';
                     for (size_t k = 0; k < os; k++) bl += sprintf(buf + bl, "%02x", ((unsigned char *)o.data)[k]);
                     buf[bl] = 0;
-                    scribble_free(o.data, os);
+                    if (copy) scribble_free(o.data, os);      /* the caller keeps the dangling pointer in o.data, as a real caller would */
                 }
                 printf("walk %s %s", ended ? "end" : "more", buf);
             } else printf("?? %s", op);
